@@ -393,10 +393,14 @@ func init() {
 			c.Require("reflections_refused_cache-off")
 			c.Require("reflections_refused_cache-on")
 			c.Require("burst_salts_pairwise_distinct")
+			c.Require("reflections_across_a_restart_refused")
 			if !c08Burst(c) {
 				return
 			}
 			c08Run(c)
+			if c.Batch == 0 {
+				c08Process(c)
+			}
 		},
 	})
 }
